@@ -202,7 +202,7 @@ def main():
     _G["sir"] = base
     _G["sir_refs"] = {k: refs[2 * k] for k in range(len(base))}
 
-    sis = event_scn.sis_scenarios(chk.seed + 2, 200 if tier == "quick" else 1200)
+    sis = [s for s in event_scn.sis_scenarios(chk.seed + 2, 250 if tier == "quick" else 1500) if not s.get("directed")]
     res2 = c13.model_check(sis)
     chk.add_tlc("EventSIS on %d scenarios" % len(sis), res2)
     by = {}
